@@ -3,3 +3,5 @@
 pub mod core;
 pub mod gen;
 pub mod props;
+pub mod refs;
+pub mod drive;
